@@ -265,7 +265,7 @@ func solo(cs Case32, b *tlsh.Built, script []byte) (tlsh.Obs, bool, string) {
 	peer.Write(script)
 	// the peer stops talking: wait until the endpoint has consumed what it wants, then close
 	var o tlsh.Obs
-	o.Canary = "nosh"
+	o.Canary, o.CTypes, o.STypes = "nosh", []int{}, []int{}
 	deadline := time.After(tlsh.Watchdog)
 	poll := time.NewTicker(2 * time.Millisecond)
 	defer poll.Stop()
